@@ -121,6 +121,8 @@ def run(F, R):
     from .C20 import z7_release_after_pop
     guard(R, 'E12', 'release-after-pop', lambda: z7_release_after_pop(F, RuleProxy(R, {'Z7': 'E12'}), M, roles))
     e9_can_pop(F, R, M, by['can_pop'][0], lfield)
+    e13_counter_accounting(F, R, M)
+    e14_release_form(F, R, M)
 
 
 def e8_helper_token(F, R, M, roles, rule='E8'):
@@ -209,6 +211,91 @@ def num_used_field(paths):
                     if x[0] == 'load0' and x[1][2] and x[1][2][-1][0] == 'f':
                         fields[x[1][2][-1][1]] = fields.get(x[1][2][-1][1], 0) + 1
     return fields
+
+
+def e13_counter_accounting(F, R, M, rule='E13'):
+    """The in-use counter moves by the number of descriptors a submission takes / a release returns: every store to it is
+    `counter + 1` (one table descriptor), `counter + len(inputs) + len(outputs)` (one descriptor per buffer: each buffer-list
+    parameter's length exactly once, nothing else - in particular no arithmetic on descriptor indices, which are not
+    consecutive once the free list is fragmented), or `counter - 1` (per released descriptor)."""
+    ctr = in_use_counter(F, M)
+    if ctr is None:
+        R.abstain(rule, 'counter-accounting', 'cannot identify the in-use counter', M.queue_adt)
+        return
+    n = 0
+    for b in sorted(F.bodies.values(), key=lambda x: x['id']):
+        if b.get('impl_adt') != M.queue_adt or not F.handwritten(b) or b['kind'] != 'AssocFn':
+            continue
+        sg0 = supergraph(F, b['id'], tag='flat', max_depth=0)
+        S0 = sg0.sym
+        for nd in sg0.nodes:
+            if nd.kind != 'assign' or not nd.d['place']['p']:
+                continue
+            pl = nd.d['place']['p'][-1]
+            if not (isinstance(pl, dict) and pl.get('adt') == M.queue_adt and pl.get('n') == ctr):
+                continue
+            v = S0.rvalue(nd.id, nd.d['rv'])
+            v = v[1] if v[0] == 'field' else v
+            n += 1
+            bad = None
+            if fold_const(v) == 0:
+                continue        # initialisation
+            if not (v[0] == 'bin' and v[1] in ('Add', 'AddWithOverflow', 'Sub', 'SubWithOverflow') and v[2][0] in ('load', 'load0')
+                    and v[2][1][2] and v[2][1][2][-1][1] == ctr):
+                bad = 'the counter is assigned %s, not counter +/- an amount' % fmt(v)[:80]
+            elif v[1].startswith('Sub'):
+                if fold_const(v[3]) != 1:
+                    bad = 'a release subtracts %s instead of 1 per descriptor' % fmt(v[3])[:60]
+            elif fold_const(v[3]) != 1:
+                lens, other = [], []
+
+                def walk(t):
+                    t = strip_conv(t)
+                    if t[0] == 'bin' and t[1] in ('Add', 'AddWithOverflow'):
+                        walk(t[2]); walk(t[3])
+                    elif t[0] == 'field' and t[1][0] == 'bin':
+                        walk(t[1])
+                    elif t[0] == 'call' and t[2].endswith('::len') and derives_from(t[3][0], lambda x: x[0] == 'param'):
+                        lens.append([x[1] for x in subterms(t[3][0]) if x[0] == 'param'][0])
+                    else:
+                        other.append(t)
+                walk(v[3])
+                fn_ = sg0.entry_fn
+                lists = [i + 1 for i, l_ in enumerate(fn_['locals'][1:fn_['arg_count'] + 1]) if '[&' in l_['ty'] and '[u8]' in l_['ty']]
+                if other:
+                    bad = 'a submission adds %s to the in-use counter: only the lengths of the buffer lists count descriptors (descriptor indices are not consecutive on a fragmented free list)' % fmt(other[0])[:80]
+                elif sorted(lens) != sorted(lists):
+                    bad = 'a submission adds the lengths of parameters %s, the buffer lists are parameters %s' % (sorted(lens), sorted(lists))
+            R.check(bad is None, rule, '%s:counter-accounting' % b['id'], site(sg0, nd), 'counter +1 / + len(inputs) + len(outputs) / -1',
+                    'descriptor accounting in %s: %s' % (b['name'], bad))
+    R.count('counter_stores', n)
+
+
+def e14_release_form(F, R, M, rule='E14'):
+    """The form released is the form submitted: the release path takes the indirect-table branch (the per-head table slot is
+    taken / read) only under a test of the *head descriptor's own* flags in the shadow table - not under a queue-wide setting,
+    because a queue that negotiated indirect descriptors still submits single-buffer chains directly."""
+    tf = M.qf.get('indirect_lists')
+    sh = M.qf.get('shadow')
+    if not tf or not sh or not any(f_['name'] == tf for f_ in F.adts[M.queue_adt]['variants'][0]['fields']):
+        return      # configuration without indirect tables
+    n = 0
+    for b in sorted(F.bodies.values(), key=lambda x: x['id']):
+        if b.get('impl_adt') != M.queue_adt or not F.handwritten(b) or b['kind'] != 'AssocFn':
+            continue
+        sg0 = supergraph(F, b['id'], tag='flat', max_depth=0)
+        S0 = sg0.sym
+        onf = lambda t, f: any(x[0] == 'loc' and any(pp[0] == 'f' and pp[1] == f and len(pp) > 2 and pp[2] == M.queue_adt for pp in x[2]) for x in subterms(t))
+        for c in sg0.calls(lambda d: d.get('fn', '').rsplit('::', 1)[-1] in ('take', 'replace') and d.get('fn', '').startswith('core::')):
+            if not onf(S0.operand(c.id, c.d['args'][0]), tf):
+                continue
+            n += 1
+            gs = [S0.operand(swid, sg0.nodes[swid].d['discr']) for swid, vals, succ in sg0.guards_of(c.id)]
+            by_flag = any(onf(g, sh) and 'flags' in fmt(g) for g in gs)
+            R.check(by_flag, rule, '%s:release-form-by-descriptor-flag' % b['id'], site(sg0, c), 'the table slot is released under a test of the head descriptor\'s flags',
+                    '%s releases the indirect table of a chain without testing the head descriptor\'s own flags (guards: %s): a directly submitted '
+                    'chain on a queue with indirect descriptors enabled is released as if it had a table' % (b['name'], [fmt(g)[:50] for g in gs][:3]))
+    R.count('table_releases', n)
 
 
 def in_use_counter(F, M):
